@@ -18,6 +18,7 @@ str_join = z3.Function("str_join", S, SeqV, S)      # sep.join(xs)
 ascii_ok = z3.Function("ascii_ok", S, B)
 fmt2 = z3.Function("fmt2", S, SeqV, S)              # opaque formatting (%-format / str.format / repr-like), never interpreted
 hash_of = z3.Function("hash_of", Val, I)
+ALL_REPORTS = z3.Function("all_reports", SeqE, B)     # every event of the sequence is a failure report (axioms in contracts/common.py)
 
 
 class ModelMixin:
@@ -26,7 +27,7 @@ class ModelMixin:
                      "ite", "unit", "is_none", "is_str", "is_int", "is_ref", "last", "ref", "allocated",
                      "held", "is_list_of_pos_int", "cls_id", "is_float", "sval", "ival", "dget", "singleton", "str", "is_bool", "is_dict", "is_list",
                      "setof", "contains", "prefix_of", "is_bytes", "is_cls", "map_int2str", "joinstr", "split", "lookup_global",
-                     "funcval", "seqmap", "extends"}
+                     "funcval", "seqmap", "extends", "only_changed", "UNSET", "unchanged", "unchanged_old", "cls_module_name", "all_reports", "empty_log"}
 
     # ------------------------------------------------------------------ spec-mode calls
     def spec_call(self, e, st):
@@ -36,7 +37,13 @@ class ModelMixin:
                 ss = st.copy()
                 ss.heap = dict(st.heap0)
                 if st.entry_frame is not None:
-                    ss.frames[ss.fid] = dict(st.entry_frame)
+                    root = ss.fid
+                    while ss.frames[root]["$parent"] is not None:
+                        root = ss.frames[root]["$parent"]
+                    keep = {k2: v2 for k2, v2 in ss.frames[root].items() if k2 not in st.entry_frame and not k2.startswith("$")}
+                    ss.frames[root] = dict(st.entry_frame)
+                    for k2, v2 in keep.items():
+                        ss.frames[root].setdefault(k2, v2)
                 v = self.ev1(e.args[0], ss)
                 for extra in ss.pc[len(st.pc):]:
                     st.pc.append(extra)
@@ -202,8 +209,8 @@ class ModelMixin:
         if name == "box":
             return SV("val", box(a[0]))
         if name == "Ev":
-            vals = [box(x) for x in a[1:]] + [NoneV] * (5 - len(a))
-            return SV("ev", Ev.mkEv(a[0].t, *vals[:4]))
+            vals = [box(x) for x in a[1:]] + [NoneV] * (8 - len(a))
+            return SV("ev", Ev.mkEv(a[0].t, *vals[:7]))
         if name == "isinst":
             v = self.concretize(st, a[0])
             cname = e.args[1].value
@@ -224,7 +231,10 @@ class ModelMixin:
         if name == "typed":
             # typed(x, "hint"): view a boxed value at a type (adds the type assumption)
             v = a[0]
-            return self.from_val(st, box(v), e.args[1].value)
+            npc = len(st.pc)
+            out = self.from_val(st, box(v), e.args[1].value)
+            del st.pc[npc:]          # a view, not an assumption (it is used under implies/ite guards)
+            return out
         if name == "is_none":
             return SV("bool", box(a[0]) == NoneV)
         if name == "is_str":
@@ -264,7 +274,8 @@ class ModelMixin:
         if name == "prefix_of":
             x = self.spec_builtin(st, "seq", [a[0]], e) if a[0].k not in ("seqe",) else a[0]
             y = self.spec_builtin(st, "seq", [a[1]], e) if a[1].k not in ("seqe",) else a[1]
-            return SV("bool", z3.PrefixOf(x.t, y.t))
+            lx, ly = z3.Length(x.t), z3.Length(y.t)
+            return SV("bool", z3.And(lx <= ly, y.t == z3.Concat(x.t, z3.Extract(y.t, lx, ly - lx))))
         if name == "extends":
             # extends(new, old): new == old ++ something
             return SV("bool", z3.PrefixOf(a[1].t, a[0].t))
@@ -281,6 +292,38 @@ class ModelMixin:
         if name == "map_int2str":
             sq = self.spec_builtin(st, "seq", [a[0]], e).t
             return SV("seq", self.seqmap_str(sq), h="str")
+        if name in ("only_changed", "unchanged"):
+            # only_changed("attr", x, y, ...): the heap component `attr` differs from its old value at most at the
+            # references x, y (None entries ignored) -- quantifier-free frame statement
+            comp = e.args[0].value
+            cur = self.harr(st, comp)
+            if comp not in st.heap0:
+                st.heap0[comp] = cur
+            base = st.heap0[comp]
+            expect = base
+            for x in a[1:]:
+                bx = box(x)
+                r = Val.rv(bx)
+                expect = z3.If(Val.is_RefV(bx), z3.Store(expect, r, z3.Select(cur, r)), expect)
+            return SV("bool", cur == expect)
+        if name == "unchanged_old":
+            # every object that existed before keeps its `attr` (new objects are unconstrained)
+            comp = e.args[0].value
+            cur = self.harr(st, comp)
+            if comp not in st.heap0:
+                st.heap0[comp] = cur
+            base = st.heap0[comp]
+            r = z3.Int("r!uo")
+            a0 = st.heap0["$alloc"]
+            return SV("bool", z3.ForAll([r], z3.Implies(r <= a0, z3.Select(cur, r) == z3.Select(base, r)),
+                                        patterns=[z3.Select(cur, r)]))
+        if name == "all_reports":
+            return SV("bool", ALL_REPORTS(a[0].t))
+        if name == "empty_log":
+            return SV("seqe", z3.Empty(SeqE))
+        if name == "cls_module_name":
+            r = Val.rv(box(a[0]))
+            return SV("str", z3.Concat(cls_module(clsof(r)), z3.StringVal("."), cls_name(clsof(r))))
         if name == "lookup_global":
             return self.module_global(st, e.args[0].value, e.args[1].value)
         raise SpecError("unknown spec builtin " + name)
